@@ -115,6 +115,19 @@ Definition to_sframe (f : frame3) : sframe :=
 Definition emit_frame (supports sorted : bool) (f : frame3) : option sframe :=
   if supports && negb (frame3_eqb f (default_frame sorted)) then Some (to_sframe f) else None.
 
+(* is a bound a numeric offset (neither open nor 0)? *)
+Definition is_offset (b : option Z) : bool := match b with Some z => negb (z =? 0) | None => false end.
+Definition offset_free (f : frame3) : bool := match f with (_, a, b) => negb (is_offset a) && negb (is_offset b) end.
+
+(* translate_windowed (/repo 91a6a23): a RANGE frame with a numeric offset over a number of sort keys other than one is
+   the compile error "window: a `range` with an offset needs exactly one sort key" -- for a function that takes a frame
+   clause at all; the check stands in front of the elision *)
+Definition range_offset_rejected (supports : bool) (nkeys : nat) (f : frame3) : bool :=
+  match f with (k, a, b) => supports && wkind_eqb k KRange && negb (Nat.eqb nkeys 1) && (is_offset a || is_offset b) end.
+(* None = rejected; Some c = the OVER (...) is emitted with frame clause c (None inside = elided) *)
+Definition emit_window (supports : bool) (nkeys : nat) (f : frame3) : option (option sframe) :=
+  if range_offset_rejected supports nkeys f then None else Some (emit_frame supports (negb (Nat.eqb nkeys 0)) f).
+
 (* text, as sqlparser displays it *)
 Fixpoint show_pos_fuel (fuel : nat) (n : Z) (acc : str) : str :=
   match fuel with
@@ -245,9 +258,6 @@ Definition prql_segment (f : frame3) (keys : list (bool * expr)) (p : rel) (i : 
 
 (* the documented meaning of range frames beyond Rel.v's domain: Model/Window.v segx *)
 Definition prql_segmentx (f : frame3) (keys : list (bool * expr)) (p : rel) (i : nat) : list nat := segx (rel_frame f) keys p i.
-(* is a bound an offset (neither open nor 0)? *)
-Definition is_offset (b : option Z) : bool := match b with Some z => negb (z =? 0) | None => false end.
-Definition offset_free (f : frame3) : bool := match f with (_, a, b) => negb (is_offset a) && negb (is_offset b) end.
 (* domain of the generalised reading: no offsets, or one key (either direction) that is an integer on every row *)
 Definition one_int_key (keys : list (bool * expr)) (p : rel) : Prop :=
   exists desc ke, keys = [(desc, ke)] /\ forall r, In r p -> exists z, ev r ke = VInt z.
